@@ -46,4 +46,33 @@ CLAIMS = {
         "except comment bodies, covered by the opener rule). Nine families ('.' next to a numeric literal) are genuine and listed in known_findings.json.",
         "technique": "abstract interpretation of tokfmt over token classes + product-automaton boundary-crossing search",
     },
+    "C04": {
+        "level": "Typestate, pairing and ownership of the callback stream decided on every path of parser.py: unique first callback, block "
+        "start = fresh state object whose parent is the current state, pushed before the callback; block end only through "
+        "_finish <- _pop_state (after the balance check) <- _on_block_end <- '}' key, current state becomes the parent; three writers of "
+        "self.state; current-state argument at all 23 other callback sites; kind-guard dominance at 33 sites against the protocol's own "
+        "annotations; fold of the simple visitor (one append per payload into the typed list of its state's scope); exception discipline "
+        "of parse(); visitor save/restore and no cached visitor (shared with C05).",
+        "note": "Decided essentially in full by structure. Not decided: that every block closed in the source reaches the '}' dispatch "
+        "(depends on token values, e.g. a brace swallowed by a skipped region). Trusted: the annotations in visitor.py / parserstate.py "
+        "as the oracle for kinds; the call-graph resolution listed in the evidence.",
+        "technique": "CFG dominance + reaching definitions + kind-set dataflow with isinstance narrowing + who-may-call over the resolved call graph",
+    },
+    "C05": {
+        "level": "The skip mechanism is pure visitor plumbing and is decided completely: identity test on the start callback's result, the "
+        "null visitor installed only there, save on push / end-to-active-visitor / restore-from-popped-state ordering on every path, no "
+        "emission between pop and restore, no cached visitor or bound visitor method anywhere, NullVisitor complete and inert.",
+        "note": "Nothing material left undecided. Trusted: CxxVisitor doc-strings as the statement of which callbacks may prune.",
+        "technique": "ownership (who may write/read self.visitor, _prior_visitor), ordering by dominance on the CFG, sibling agreement NullVisitor vs protocol",
+    },
+    "C06": {
+        "level": "Exception discipline (everything that consumes tokens is inside a catch-all whose every path raises CxxParseError chained to "
+        "the caught exception; message prefix flows from the token's location), handler safety (every token that can reach the handler "
+        "is stamped; the location-less placeholder is confined), lexer error rules never return, and each enumerated structural check "
+        "dominates the effect it guards (33 kind obligations, '{' without owner, unbalanced '}', bracket mismatch, validate after every _parse_type), "
+        "no nullable token regex.",
+        "note": "Not decided: that every ill-formed input is rejected (only the checks the statement enumerates), and that the reported "
+        "line number is a line of the input (provenance of the number is decided under C10).",
+        "technique": "guard-dominance and must-pass-through on the CFG, exception-edge reachability, kind-set dataflow",
+    },
 }
